@@ -495,6 +495,24 @@ func c12Bind(c *cx) {
 		c.r.Check("C12.5", f, "initiator success return [address reported]", "O: every path to the initiator's success return passes Session.UpdateAddr", rs.Pos(), g.MustPassBefore(g.Entry(), pt, isUpd, nil), "a success return is reachable without UpdateAddr: LocalAddr keeps the address the session started with")
 	}
 	c.r.Floor("C12.5", "initiator success returns of bind", nsucc, 1)
+	// the error verdict is written where it is read: bindIQ decodes Err from an
+	// <error/> child of the IQ, so the encoder emits it as a child of the IQ
+	// (not nested in the <bind/> payload, where neither this library's
+	// initiator nor any other client looks for it)
+	if tr := c.fn("C12.6", "", "(*bindIQ).TokenReader"); tr != nil {
+		tg := tr.Graph()
+		nErr := 0
+		for _, rs := range tg.Returns {
+			rp, _ := tg.Where(rs)
+			if okd, _ := tg.Dominated(rp, "!eq(recv.Err,nil)"); !okd || len(rs.Results) != 1 {
+				continue
+			}
+			nErr++
+			got := tr.Norm(rs.Results[0], &rp)
+			c.r.Check("C12.6", tr, "error verdict encoded as a child of the iq", "P: with Err set the reply is IQ.Wrap(Err.TokenReader()) (the decoder's tag for Err is a direct child of the iq)", rs.Pos(), eng.Glob("stanza.IQ.Wrap[recv*](stanza.Error.TokenReader[recv.Err]())", got), "the reply is "+got)
+		}
+		c.r.Floor("C12.6", "error-verdict returns of bindIQ.TokenReader", nErr, 1)
+	}
 	// receiver: a stanza error from the application's callback is answered as
 	// an ERROR reply and the step does not report success
 	nrs := 0
